@@ -272,13 +272,6 @@ func isWider(wt, rt string) bool {
 	return false
 }
 
-func trunc(b []byte) []byte {
-	if len(b) > 24 {
-		return b[:24]
-	}
-	return b
-}
-
 func c02CoqVal(t string, z int64, u uint64, s []byte) string {
 	switch t {
 	case "f32", "f64":
